@@ -1,7 +1,9 @@
 package gen
 
 import (
+	"bytes"
 	"fmt"
+	"github.com/ipld/go-ipld-prime/datamodel"
 	"math/rand/v2"
 	"time"
 
@@ -446,4 +448,101 @@ func FieldsFromPayload(tag string, p ref.V) (ref.V, error) {
 		), nil
 	}
 	return ref.V{}, fmt.Errorf("unknown tag %q", tag)
+}
+
+// AccessorIssues cross-checks the keyed getters of a token's metadata and arguments against
+// what iteration yields: GetNode(k) is the iterated node, the typed getter of the node's kind
+// returns its value, a key that does not occur is reported as missing, and Equals holds
+// against a clone and fails against a clone with one more entry.
+func AccessorIssues(t token.Token) []string {
+	var issues []string
+	check := func(what string, it func(func(string, datamodel.Node) bool), getNode func(string) (datamodel.Node, error)) {
+		it(func(k string, n datamodel.Node) bool {
+			g, err := getNode(k)
+			if err != nil || g == nil {
+				issues = append(issues, fmt.Sprintf("%s.GetNode(%q): err=%v", what, k, err))
+				return true
+			}
+			if !datamodel.DeepEqual(g, n) {
+				if a, e1 := ref.FromNode(g); e1 == nil {
+					if b, e2 := ref.FromNode(n); e2 == nil && !ref.SameData(a, b) {
+						issues = append(issues, fmt.Sprintf("%s.GetNode(%q) differs from the iterated value", what, k))
+					}
+				}
+			}
+			return true
+		})
+		if n, err := getNode("\x00 no such key \x00"); err == nil || n != nil {
+			issues = append(issues, what+".GetNode(absent key) returns a value / no error")
+		}
+	}
+	var m meta.ReadOnly
+	switch x := t.(type) {
+	case *delegation.Token:
+		m = x.Meta()
+	case *invocation.Token:
+		m = x.Meta()
+		a := x.Arguments()
+		check("Arguments", a.Iter(), a.GetNode)
+		c := a.WriteableClone()
+		if !a.Equals(c.ReadOnly()) {
+			issues = append(issues, "Arguments.Equals(clone) = false")
+		}
+		if err := c.Add("\x00 extra \x00", 1); err == nil && a.Equals(c.ReadOnly()) {
+			issues = append(issues, "Arguments.Equals(clone + one entry) = true")
+		}
+	default:
+		return nil
+	}
+	check("Meta", m.Iter(), m.GetNode)
+	for k, n := range m.Iter() {
+		switch n.Kind() {
+		case datamodel.Kind_Bool:
+			want, _ := n.AsBool()
+			if got, err := m.GetBool(k); err != nil || got != want {
+				issues = append(issues, fmt.Sprintf("Meta.GetBool(%q) = %v, %v", k, got, err))
+			}
+		case datamodel.Kind_String:
+			want, _ := n.AsString()
+			if got, err := m.GetString(k); err != nil || got != want {
+				issues = append(issues, fmt.Sprintf("Meta.GetString(%q): err=%v", k, err))
+			}
+		case datamodel.Kind_Int:
+			if want, err := n.AsInt(); err == nil {
+				if got, err := m.GetInt64(k); err != nil || got != want {
+					issues = append(issues, fmt.Sprintf("Meta.GetInt64(%q) = %v, %v", k, got, err))
+				}
+			}
+		case datamodel.Kind_Float:
+			want, _ := n.AsFloat()
+			if got, err := m.GetFloat64(k); err != nil || (got != want && !(got != got && want != want)) {
+				issues = append(issues, fmt.Sprintf("Meta.GetFloat64(%q) = %v, %v", k, got, err))
+			}
+		case datamodel.Kind_Bytes:
+			want, _ := n.AsBytes()
+			if got, err := m.GetBytes(k); err != nil || !bytes.Equal(got, want) {
+				issues = append(issues, fmt.Sprintf("Meta.GetBytes(%q): err=%v", k, err))
+			}
+		}
+	}
+	for _, miss := range []func(string) error{
+		func(k string) error { _, err := m.GetBool(k); return err },
+		func(k string) error { _, err := m.GetString(k); return err },
+		func(k string) error { _, err := m.GetInt64(k); return err },
+		func(k string) error { _, err := m.GetFloat64(k); return err },
+		func(k string) error { _, err := m.GetBytes(k); return err },
+	} {
+		if miss("\x00 no such key \x00") == nil {
+			issues = append(issues, "a typed Meta getter reports no error for an absent key")
+			break
+		}
+	}
+	mc := m.WriteableClone()
+	if !m.Equals(mc.ReadOnly()) {
+		issues = append(issues, "Meta.Equals(clone) = false")
+	}
+	if err := mc.Add("\x00 extra \x00", 1); err == nil && m.Equals(mc.ReadOnly()) {
+		issues = append(issues, "Meta.Equals(clone + one entry) = true")
+	}
+	return issues
 }
